@@ -11,7 +11,7 @@ RULE = ("Schema specs x (a) operations valid by construction (must validate), (b
         "when the reference finds exactly one broken rule, the library's checker for that rule run alone must report "
         "it (attribution), (c) metamorphic: permuting definitions / selections / arguments / variable definitions, "
         "renaming aliases, fragments, variables and operations through bijections, re-spelling insignificant tokens "
-        "must not change the verdict. Non-trivial: >= 2 definitions or a selection set with >= 2 selections; distinct = "
+        "must not change the verdict, nor does parsing the same text without positions (no_location). Non-trivial: >= 2 definitions or a selection set with >= 2 selections; distinct = "
         "(schema, text). Per-rule counters report which rules' violation families were exercised.")
 ASSUMPTIONS = [
     "Reference validator vlib/ref/validate.py (26 rules from the specification text), self-checked against committed goldens.",
